@@ -158,8 +158,9 @@ def emit_case(c, obs) -> str:
     else:
         o = "None"
     xs = core.clist(bf(float.fromhex(h)) for h in c["xs"])
+    tw = "None" if "twin" not in obs else f"(Some {core.clist(str(v) for v in obs['twin'])})"
     return (f"{{| kind := {KIND[c['kind']]}; bits := {c['bits']}; vmin := {bf(float.fromhex(c['vmin']))}; "
-            f"vmax := {bf(float.fromhex(c['vmax']))}; xs := {xs}; observed := {o} |}}")
+            f"vmax := {bf(float.fromhex(c['vmax']))}; xs := {xs}; observed := {o}; twin := {tw} |}}")
 
 
 def emit_file(pairs) -> str:
@@ -200,6 +201,9 @@ def classify(c, obs):
             return "low_saturation", [j], {}
         if not (0 <= cd <= M):
             return "out_of_range", [j], dict(code="2^bits" if cd == M + 1 else "other")
+    if c["kind"] == "sar0" and obs.get("twin") != codes:
+        j = next((k for k, (a, b) in enumerate(zip(obs.get("twin") or [], codes)) if a != b), 0)
+        return "zero_noise_differs", [j], dict(twin=str((obs.get("twin") or [None])[j]) if obs.get("twin") else "missing")
     for j in range(len(codes) - 1):
         if codes[j] > codes[j + 1]:
             if c["kind"] != "simple" and bits >= 54 and codes[j + 1] == 0:
